@@ -36,6 +36,7 @@ void vp_note(long long x) { load(); if (g_notes) fprintf(g_notes, "%llu\n", (uns
 int vp_param(int k) { load(); return k < (int)g_par.size() ? g_par[k] : 0; }
 int vp_concretize(int x) { return x; }
 int vp_symbolic_run(void) { return 0; }
+void vp_sched_budget(int) {}
 }
 #include <dlfcn.h>
 int main(int argc, char** argv) {
